@@ -105,6 +105,7 @@ func c52ZoneSecs(z string) int {
 func runC52(c *fw.Ctx) {
 	c.SetRule("A: every entry of messages x zones x identities x timestamps appended alone to its own ref, plus every chain of <=3 entries over a reduced product, through filesystem Storage.AppendReflog, then listed by `git log -g --date=raw` (new id, name, e-mail, seconds, zone, subject) and chain-checked by `git rev-parse ref@{n}`; the expected subject is git's own normalisation of the message, obtained from real `git update-ref -m`; B: every sequence of <= max_ops operations of {commit, checkout -b, checkout main, reset --hard HEAD~1, branch -m, update-ref -m} run by real git with rotating committer identities/zones, every reflog file then decoded by Storage.Reflog and compared entry by entry with `git log -g`; non-trivial = an entry with a message needing normalisation, a non-UTC zone or an odd identity (A), a history with at least 3 reflog entries (B); distinct = (part, message shape, zone, identity shape, number of entries) classes")
 	c.Assume("git log -g lists every reflog entry whose new id is a commit and none whose new id is null (branch renames write such entries; they are left out of the comparison); a zero timestamp is excluded (git treats such a line as corrupt); a zone of -0000 cannot be represented by time.Time and git itself rewrites it to +0000 when writing, so zones are compared as offsets; identities containing '<', '>' or a newline are outside the space (they cannot be represented in the line format by git either); old ids are observed through git's gap warning and date look-up, the only places git exposes them")
+	c52Concurrent(c)
 	if os.Getenv("S13_ONLY_NEW") == "" { // development aid: skip the unchanged parts
 		c52A(c)
 	}
